@@ -8,6 +8,7 @@ import OdakModel.Losses
 import OdakModel.Generated.Colour
 import OdakModel.Generated.GradBreakers
 import Mathlib.Logic.Function.Iterate
+import OdakProofs.Lemmas.GenMeshObject
 
 /-!
 # C05 – the dual-number evaluation of a model function is its value and its true derivative
@@ -445,5 +446,72 @@ def reviewedGradBreakers : List (String × String × Nat × String) := [
 
 theorem C05_graph_leaving_constructs_are_the_reviewed_ones :
     Gen.gradBreakers = reviewedGradBreakers.map (fun e => (e.1, e.2.1, e.2.2.1)) := by decide +kernel
+
+end Odak
+
+/-! ## The OBJECT `planar_mesh` regenerated from the Python source on this run (work package 13)
+  (`OdakModel/Generated/MeshObject.lean`, written by `harness/translate/meshobject.py`: EVERY attribute the class stores anywhere is a field;
+  `__init__`, `init_heights`, `get_squares`, `get_triangles`, `mirror` are step functions over (attributes, heap of tensor objects)).
+  A mesh is LEARNED: an optimiser updates `heights` in place between calls of `mirror`, and the gradient of what `mirror` returns has to
+  reach the heights as they are at that call.  What these theorems say: no attribute is stored outside `__init__` / `init_heights`, so no
+  triangles (with or without an autograd graph) can survive from one call to the next.  They stop compiling when `get_triangles` keeps
+  its result on `self`. -/
+namespace Odak
+open Gen
+variable {T R : Type} [DecidableEq R]
+set_option linter.unusedSectionVars false
+
+/-- the regenerated state structure has exactly the reviewed attributes: there is no attribute that could hold cached triangles -/
+theorem C05_gen_mesh_attributes : meshFields = meshObjFields := rfl
+
+/-- in the reference semantics no call stores an attribute -/
+theorem meshRef_logs_empty (E : MeshOps T R) (o : MeshObj T) (av ov nv : T) :
+    ∀ (xs : List (MCall T)) (hv hv' : T) (zs : List (MRet T × List String)), runSteps (meshRefStep E o av ov nv) hv xs = some (hv', zs) →
+      ∀ z ∈ zs, z.2 = [] := by
+  intro xs
+  induction xs with
+  | nil => intro hv hv' zs e; simp [runSteps] at e; intro z hz; rw [e.2] at hz; cases hz
+  | cons x rest ih =>
+    intro hv hv' zs e
+    simp only [runSteps] at e
+    cases hx : meshRefStep E o av ov nv hv x with
+    | none => simp [hx] at e
+    | some r =>
+      simp only [hx, Option.bind_some] at e
+      cases hrest : runSteps (meshRefStep E o av ov nv) r.1 rest with
+      | none => simp [hrest] at e
+      | some q =>
+        simp only [hrest, Option.map_some, Option.some.injEq, Prod.mk.injEq] at e
+        intro z hz
+        rw [← e.2] at hz
+        rcases List.mem_cons.1 hz with rfl | hz
+        · cases x <;> simp [meshRefStep] at hx <;> rw [← hx]
+        · exact ih r.1 q.1 q.2 hrest z hz
+
+/-- **`mirror` reads no cached attribute**: for EVERY list of calls of `mirror`, `get_triangles`, `get_squares` interleaved with in-place
+    updates of the heights (optimiser steps), every value is the value computed from the content the heights tensor holds at the time of
+    that call - `mirror` = the rays bounced off `triangulate(cat(X, Y, heights NOW))`, rotated and offset - and no call stores an attribute -/
+theorem C05_gen_mesh_mirror_reads_current_heights (E : MeshOps T R) (o : MeshObj T) (av ov nv : T) (xs : List (MCall T)) (h : Heap T) (hv : T)
+    (inv : MeshInv o h av ov nv) (hh : h.get o.heights = some hv) (hv' : T) (zs : List (MRet T × List String))
+    (href : runSteps (meshRefStep E o av ov nv) hv xs = some (hv', zs)) :
+    ∃ h', runSteps (meshStep E) ((o.toSelf : PlanarMeshAttrs T R), h) xs = some ((o.toSelf, h'), zs) ∧ (∀ z ∈ zs, z.2 = []) := by
+  obtain ⟨h', e, -, -⟩ := mesh_run E o av ov nv xs h hv inv hh hv' zs href
+  exact ⟨h', e, meshRef_logs_empty E o av ov nv xs hv hv' zs href⟩
+
+/-- `mirror` is a function of (the content of the heights, the rays) and the constant configuration: in two heaps - whatever was called
+    before - that agree on the heights, the angles, the offset and the mesh counts, it returns the same value -/
+theorem C05_gen_mesh_mirror_function_of_heights_and_rays (E : MeshOps T R) (o : MeshObj T) (h1 h2 : Heap T) (av ov nv hv : T) (rays : T)
+    (a1 : h1.get o.angles = some av) (o1 : h1.get o.offset = some ov) (n1 : h1.get o.number_of_meshes = some nv) (g1 : h1.get o.heights = some hv)
+    (a2 : h2.get o.angles = some av) (o2 : h2.get o.offset = some ov) (n2 : h2.get o.number_of_meshes = some nv) (g2 : h2.get o.heights = some hv) :
+    (meshMirrorG E (o.toSelf : PlanarMeshAttrs T R) h1 rays).map (fun r => r.2.2.1) = (meshMirrorG E (o.toSelf : PlanarMeshAttrs T R) h2 rays).map (fun r => r.2.2.1) := by
+  rw [gen_meshMirrorG_eq E o h1 av ov nv hv a1 o1 n1 g1, gen_meshMirrorG_eq E o h2 av ov nv hv a2 o2 n2 g2]
+  rfl
+
+/-- the constructor keeps the CALLER'S heights tensor by reference (the leaf the caller optimises is the tensor `mirror` reads) -/
+theorem C05_gen_mesh_keeps_the_callers_heights (E : MeshOps T R) (h : Heap T) (sl nl al ol l : Nat) (sv nv : T) (g1 : h.get sl = some sv)
+    (g2 : h.get nl = some nv) :
+    ∃ X Y log, meshInitG E (PlanarMeshAttrs.empty : PlanarMeshAttrs T R) h sl nl al ol () (some l) =
+      some ((⟨al, ol, sl, nl, l, X, Y⟩ : MeshObj T).toSelf, h, (), log) :=
+  ⟨_, _, _, gen_meshInitG_eq E h sl nl al ol (some l) sv nv g1 g2⟩
 
 end Odak
